@@ -212,8 +212,16 @@ def eval_family(case):
     sent = []
     f = []
 
+    fail_kinds = {"url": lambda: urllib.error.URLError("connection refused"),
+                  "http": lambda: urllib.error.HTTPError("http://h.invalid/p", 503, "unavailable", {}, None),
+                  "os": lambda: ConnectionResetError("reset"), "timeout": lambda: TimeoutError("timed out")}
+    failing = {}
+
     def fake_open(_self, request, *a, **kw):
         sent.append(request)
+        kind = failing.get(len(sent) - 1)
+        if kind:
+            raise fail_kinds[kind]()       # transport failure after the request (and its id) went out
         return fakehttp.FakeResponse(request.get_method(), 200, b"")
     saved = urllib.request.OpenerDirector.open
     urllib.request.OpenerDirector.open = fake_open
@@ -226,7 +234,10 @@ def eval_family(case):
         methods = ["get", "post", "put", "delete", "patch"]
         shared_hdrs = {"Accept": "text/plain"}
         try:
-            for n, (ci, own) in enumerate(reqs):
+            for n, rq_ in enumerate(reqs):
+                ci, own = rq_[0], rq_[1]
+                if len(rq_) > 2 and rq_[2]:
+                    failing[n] = rq_[2]
                 c = conns[ci % len(conns)]
                 if own is not None:
                     hdrs = {"X-Request-ID": own}
@@ -234,7 +245,11 @@ def eval_family(case):
                     hdrs = shared_hdrs          # the caller keeps one headers dict and passes it to every request
                 else:
                     hdrs = None
-                getattr(c, methods[(n + ci) % 5] if case.get("methods") else "get")("/p", headers=hdrs)
+                try:
+                    getattr(c, methods[(n + ci) % 5] if case.get("methods") else "get")("/p", headers=hdrs)
+                except Exception:   # noqa
+                    if n not in failing:
+                        raise
         except Exception as e:   # noqa
             f.append(("request_raises_" + type(e).__name__, f"request {n} through connection {ci % len(conns)} of "
                       f"{case['derive']!r}: {e}"))
@@ -244,8 +259,8 @@ def eval_family(case):
     for rq in sent:
         h = {k.lower(): v for k, v in rq.header_items()}
         ids.append(h.get("x-request-id"))
-    gen = [i for i, (ci, own) in zip(ids, reqs) if own is None]
-    sup = [(i, own) for i, (ci, own) in zip(ids, reqs) if own is not None]
+    gen = [i for i, r_ in zip(ids, reqs) if r_[1] is None]
+    sup = [(i, r_[1]) for i, r_ in zip(ids, reqs) if r_[1] is not None]
     ctx = f"derive={case['derive']!r} reqs={case['reqs'][:12]!r} x{case.get('repeat', 1)}"
     if not f:
         if len(ids) != len(reqs):
@@ -267,8 +282,14 @@ def eval_family(case):
             if len({i[:4] for i in gen}) > 1:
                 f.append(("connection_part_differs_between_derived_connections", f"{sorted({i[:4] for i in gen})!r}; {ctx}"))
     kinds = sorted({k for _, k in case["derive"]})
-    used = {ci % (len(case["derive"]) + 1) for ci, _ in case["reqs"]}
-    classes = ["family_of_%d" % min(len(case["derive"]) + 1, 6)] + ["derived_" + k for k in kinds]
+    used = {r_[0] % (len(case["derive"]) + 1) for r_ in case["reqs"]}
+    if failing:
+        classes_extra = ["request_fails_in_transport"]
+    else:
+        classes_extra = []
+    if any(r_[1] == "" for r_ in case["reqs"]):
+        classes_extra.append("empty_string_supplied_as_id")
+    classes = ["family_of_%d" % min(len(case["derive"]) + 1, 6)] + ["derived_" + k for k in kinds] + classes_extra
     if len(reqs) > 10000:
         classes.append("more_than_10000_requests")
     depth = 0
@@ -289,7 +310,9 @@ def st_family():
     idx = st.integers(0, 7)
     return st.fixed_dictionaries({
         "derive": st.lists(st.tuples(idx, st.sampled_from(FAMILY_KINDS)).map(list), min_size=1, max_size=6),
-        "reqs": st.lists(st.tuples(idx, st.sampled_from([None, None, None, "own-1", "0000-own"])).map(list), min_size=3, max_size=14),
+        "reqs": st.lists(st.tuples(idx, st.sampled_from([None, None, None, None, "own-1", "0000-own", ""]),
+                                   st.sampled_from([None, None, None, None, None, "url", "http", "os", "timeout"])).map(list),
+                         min_size=3, max_size=14),
         "methods": st.booleans(),
         "shared_headers": st.booleans(),
     })
